@@ -87,7 +87,9 @@ static const unsigned char CX_MSG[32] = { 0xaa,0xbb,3,4,5,6,7,8,9,10,11,12,13,14
 /* public material prepared once with the harness' own context (inputs of the probe, not results) */
 static struct { int ready; secp256k1_pubkey pk, pk2; secp256k1_xonly_pubkey xpk; secp256k1_ecdsa_signature esig; unsigned char ssig[64];
                 secp256k1_keypair kp; unsigned char ell[64], ell2[64]; secp256k1_generator gen; secp256k1_pedersen_commitment com;
-                unsigned char proof[5134]; size_t plen; unsigned char blind[32]; unsigned char adaptor[162]; } CXI;
+                unsigned char proof[5134]; size_t plen; unsigned char blind[32]; unsigned char adaptor[162];
+                secp256k1_xonly_pubkey hxpk[2]; unsigned char hmsgs[64], hsigs[128], hagg[96]; size_t hagglen; secp256k1_ecdsa_signature s2csig; secp256k1_ecdsa_s2c_opening s2cop;
+                secp256k1_ecdsa_signature adsig; } CXI;
 static void cx_inputs(void) {
     if (CXI.ready) return;
     memset(CXI.blind, 0x21, 32);
@@ -101,6 +103,12 @@ static void cx_inputs(void) {
     CXI.plen = sizeof(CXI.proof);
     if (!secp256k1_rangeproof_sign(CTX, CXI.proof, &CXI.plen, 0, &CXI.com, CXI.blind, CX_MSG, 0, 8, 77, NULL, 0, NULL, 0, &CXI.gen)) exit(3);
     if (!secp256k1_ecdsa_adaptor_encrypt(CTX, CXI.adaptor, (unsigned char*)CX_SK, &CXI.pk2, CX_MSG, NULL, NULL)) exit(3);
+    { secp256k1_keypair kp2; if (!secp256k1_keypair_create(CTX, &kp2, CX_SK2) || !secp256k1_keypair_xonly_pub(CTX, &CXI.hxpk[1], NULL, &kp2)) exit(3);
+      CXI.hxpk[0] = CXI.xpk; memcpy(CXI.hmsgs, CX_MSG, 32); memset(CXI.hmsgs + 32, 0x19, 32);
+      if (!secp256k1_schnorrsig_sign32(CTX, CXI.hsigs, CXI.hmsgs, &CXI.kp, NULL) || !secp256k1_schnorrsig_sign32(CTX, CXI.hsigs + 64, CXI.hmsgs + 32, &kp2, NULL)) exit(3);
+      CXI.hagglen = sizeof(CXI.hagg); if (!secp256k1_schnorrsig_aggregate(CTX, CXI.hagg, &CXI.hagglen, CXI.hxpk, CXI.hmsgs, CXI.hsigs, 2)) exit(3); }
+    if (!secp256k1_ecdsa_s2c_sign(CTX, &CXI.s2csig, &CXI.s2cop, CX_MSG, CX_SK, CX_SK2)) exit(3);
+    if (!secp256k1_ecdsa_adaptor_decrypt(CTX, &CXI.adsig, CX_SK2, CXI.adaptor)) exit(3);
     CXI.ready = 1;
 }
 /* run all families on context c; mask selects cheap subset (bit0) or everything */
@@ -130,6 +138,22 @@ static void cx_call_all(const secp256k1_context *c, jout *out, int full) {
     FAM { secp256k1_ecdsa_signature s2; cx_begin(&f); l = 80; memset(b, 0, 80); f.ret = secp256k1_ecdsa_signature_serialize_der(c, b, &l, &CXI.esig); cx_add(&f, b, l);
           f.ret += 2 * secp256k1_ecdsa_signature_parse_der(c, &s2, b, l); cx_add(&f, &s2, sizeof(s2)); cx_end(&f, out, "f_der"); }
     if (!full) return;
+    FAM { unsigned char agg[96]; size_t al = sizeof(agg); cx_begin(&f); memset(agg, 0, 96); f.ret = secp256k1_schnorrsig_aggregate(c, agg, &al, CXI.hxpk, CXI.hmsgs, CXI.hsigs, 2); cx_add(&f, agg, al); cx_end(&f, out, "f_halfagg_aggregate"); }
+    FAM { cx_begin(&f); f.ret = secp256k1_schnorrsig_aggverify(c, CXI.hxpk, CXI.hmsgs, 2, CXI.hagg, CXI.hagglen); cx_end(&f, out, "f_halfagg_verify"); }
+    FAM { const secp256k1_pedersen_commitment *pc[1]; cx_begin(&f); pc[0] = &CXI.com; f.ret = secp256k1_pedersen_verify_tally(c, pc, 1, pc, 1); cx_end(&f, out, "f_pedersen_tally"); }
+    FAM { cx_begin(&f); f.ret = secp256k1_ecdsa_s2c_verify_commit(c, &CXI.s2csig, CX_SK2, &CXI.s2cop); cx_end(&f, out, "f_s2c_verify_commit"); }
+    FAM { cx_begin(&f); f.ret = secp256k1_anti_exfil_host_verify(c, &CXI.s2csig, CX_MSG, &CXI.pk, CX_SK2, &CXI.s2cop); cx_end(&f, out, "f_anti_exfil_host_verify"); }
+    FAM { secp256k1_ecdsa_signature sg; cx_begin(&f); memset(&sg, 0, sizeof(sg)); f.ret = secp256k1_ecdsa_adaptor_decrypt(c, &sg, CX_SK2, CXI.adaptor); cx_add(&f, &sg, sizeof(sg)); cx_end(&f, out, "f_adaptor_decrypt"); }
+    FAM { unsigned char dk[32]; cx_begin(&f); memset(dk, 0, 32); f.ret = secp256k1_ecdsa_adaptor_recover(c, dk, &CXI.adsig, CXI.adaptor, &CXI.pk2); cx_add(&f, dk, 32); cx_end(&f, out, "f_adaptor_recover"); }
+    FAM { unsigned char bl[32], m[64]; size_t ml = sizeof(m); uint64_t v = 0, mn = 0, mx = 0; cx_begin(&f); memset(bl, 0, 32);
+          f.ret = secp256k1_rangeproof_rewind(c, bl, &v, m, &ml, CX_MSG, &mn, &mx, &CXI.com, CXI.proof, CXI.plen, NULL, 0, &CXI.gen); cx_add(&f, bl, 32); cx_add(&f, &v, 8); cx_end(&f, out, "f_rangeproof_rewind"); }
+    FAM { int e = 0, ma = 0; uint64_t mn = 0, mx = 0; cx_begin(&f); f.ret = secp256k1_rangeproof_info(c, &e, &ma, &mn, &mx, CXI.proof, CXI.plen); cx_add(&f, &e, sizeof(e)); cx_add(&f, &mx, 8); cx_end(&f, out, "f_rangeproof_info"); }
+    FAM { secp256k1_pubkey dp; cx_begin(&f); memset(&dp, 0, sizeof(dp)); f.ret = secp256k1_ellswift_decode(c, &dp, CXI.ell); cx_add(&f, &dp, sizeof(dp)); cx_end(&f, out, "f_ellswift_decode"); }
+    FAM { unsigned char e64[64]; cx_begin(&f); memset(e64, 0, 64); f.ret = secp256k1_ellswift_encode(c, e64, &CXI.pk, CX_SK2); cx_add(&f, e64, 64); cx_end(&f, out, "f_ellswift_encode"); }
+    FAM { secp256k1_xonly_pubkey xo; secp256k1_pubkey tw; int par = 0; unsigned char x32[32]; cx_begin(&f);
+          f.ret = secp256k1_xonly_pubkey_tweak_add(c, &tw, &CXI.xpk, CX_SK2) + 2 * secp256k1_xonly_pubkey_from_pubkey(c, &xo, &par, &tw);
+          secp256k1_xonly_pubkey_serialize(c, x32, &xo); cx_add(&f, x32, 32);
+          f.ret += 4 * secp256k1_xonly_pubkey_tweak_add_check(c, x32, par, &CXI.xpk, CX_SK2); cx_end(&f, out, "f_xonly"); }
     FAM { uint64_t mn = 0, mx = 0; cx_begin(&f); f.ret = secp256k1_rangeproof_verify(c, &mn, &mx, &CXI.com, CXI.proof, CXI.plen, NULL, 0, &CXI.gen); cx_add(&f, &mn, 8); cx_add(&f, &mx, 8); cx_end(&f, out, "f_rangeproof_verify"); }
     FAM { static unsigned char cx_pr[5134]; size_t pl = sizeof(cx_pr); cx_begin(&f); f.ret = secp256k1_rangeproof_sign(c, cx_pr, &pl, 0, &CXI.com, CXI.blind, CX_MSG, 0, 8, 77, NULL, 0, NULL, 0, &CXI.gen); if (f.ret) cx_add(&f, cx_pr, pl); cx_end(&f, out, "f_rangeproof_sign"); }
     FAM { unsigned char a[162]; cx_begin(&f); memset(a, 0, 162); f.ret = secp256k1_ecdsa_adaptor_encrypt(c, a, (unsigned char*)CX_SK, &CXI.pk2, CX_MSG, NULL, NULL); cx_add(&f, a, 162); cx_end(&f, out, "f_adaptor_encrypt"); }
